@@ -48,7 +48,7 @@ PROPS = {
                        "an independent BTreeMap oracle."),
         "level_note": ("Trusted: Lean kernel; the P1 model abstracts storage below the log-record level (tied by correspondence only); "
                        "hash injectivity (A-hash); compression round trip (A-compress); harness generators."),
-        "lean": ["Pdb.Props.C01", "Pdb.Props.C01b", "Pdb.Proofs.Order", "Pdb.Props.Refine", "Pdb.Props.RefineRc"],
+        "lean": ["Pdb.Props.C01", "Pdb.Props.C01b", "Pdb.Proofs.Order", "Pdb.Props.Refine", "Pdb.Props.RefineRc", "Pdb.Proofs.OrderStorage", "Pdb.Proofs.OrderStorageRun", "Pdb.Proofs.OrderStoragePins", "Pdb.Props.RefineTotal", "Pdb.Props.RefineRcTotal"],
         "harness": [{"cmd": "p1", "quick": 300, "thorough": 20000}],
         "rule": P1_RULE,
         "assumptions": [A_HASH, A_COMPRESS, P2_GAP],
@@ -97,9 +97,10 @@ PROPS = {
                        "lied by the harness and checked for admissibility); the file-level recovery model (Recover.lean, driver p1r) is fed by t"
                        "he p1 harness only. Props/C02x.lean is about single-operation commits with monotone addresses; crash recovery of multi-o"
                        "peration tree transactions with address reuse is covered by the c02x correspondence and oracle, not by a theorem."),
-        "lean": ["Pdb.Props.C02", "Pdb.Props.C02Real", "Pdb.Props.C01b", "Pdb.Props.C02x", "Pdb.Proofs.Order", "Pdb.Props.C02RealWal"],
+        "lean": ["Pdb.Props.C02", "Pdb.Props.C02Real", "Pdb.Props.C01b", "Pdb.Props.C02x", "Pdb.Proofs.Order", "Pdb.Props.C02RealWal", "Pdb.Props.PhysRec", "Pdb.Props.PhysRecReplay", "Pdb.Props.PhysRecRc", "Pdb.Props.PhysRecGrow", "Pdb.Props.C02xTx"],
         "harness": [{"cmd": "p1", "quick": 250, "thorough": 15000},
-                    {"cmd": "c02x", "quick": 450, "thorough": 4000, "timeout": 7200}],
+                    {"cmd": "c02x", "quick": 450, "thorough": 4000, "timeout": 7200},
+                    {"cmd": "physrec", "quick": 60, "thorough": 60, "timeout": 3000}],
         "rule": P1_RULE + ("; at crash points the surviving log files (file number -> record ids) are reported to the file-level recovery model (p1r files; an inversion "
                            "preamble makes ~20 % of the images have file-number order different from age order; half of the crash points with fully read files crash "
                            "inside clean_logs). c02x: 2..4 columns of six kinds (hash, rc hash, btree, multitree append-only / rc / plain), transactions with at most one "
@@ -123,7 +124,8 @@ PROPS = {
                        "present after reopen; worker-thread shutdown itself is C15."),
         "lean": ["Pdb.Props.C03", "Pdb.Props.C02Real", "Pdb.Props.C01b", "Pdb.Proofs.Order"],
         "harness": [{"cmd": "p1", "quick": 250, "thorough": 15000},
-                    {"cmd": "c15", "quick": 24, "thorough": 300, "model": False, "timeout": 3000}],
+                    {"cmd": "c15", "quick": 24, "thorough": 300, "model": False, "timeout": 3000},
+                    {"cmd": "t3", "quick": 40, "thorough": 200, "model": True, "timeout": 3000}],
         "rule": P1_RULE,
         "assumptions": [A_HASH, A_COMPRESS, P2_GAP],
     },
@@ -137,7 +139,7 @@ PROPS = {
                        "ation is compared on the implementation only (iter_column_while). In the r5 correspondence reads made while commits are "
                        "queued (about 46 %) are judged by the overlay-aware oracle only; drained reads and stored counters are compared with the"
                        " model."),
-        "lean": ["Pdb.Props.C07", "Pdb.Props.C07b", "Pdb.Props.RefineRc"],
+        "lean": ["Pdb.Props.C07", "Pdb.Props.C07b", "Pdb.Props.RefineRc", "Pdb.Props.C07Iter", "Pdb.Proofs.OrderStorage", "Pdb.Proofs.OrderStorageRun", "Pdb.Proofs.OrderStoragePins", "Pdb.Props.RefineRcTotal"],
         "harness": [{"cmd": "p1", "quick": 250, "thorough": 15000}, {"cmd": "r5", "quick": 60, "thorough": 600}],
         "rule": P1_RULE,
         "assumptions": [A_HASH, A_COMPRESS, P2_GAP, "preimage contract: every Set on a preimage / rc column carries valueOf(key)"],
@@ -239,7 +241,7 @@ PROPS = {
                        "t `replaytab` compares). Not modelled: resource exhaustion driven by a record with a valid checksum (file growth by INSE"
                        "RT_VALUE index, index files up to 2^58 bytes, ref-count cache scan), what happens after replay inside Db::open (init_tab"
                        "le_data: findings F3e, fixed by 75ecce0). Known findings F3b, F3c, F3d."),
-        "lean": ["Pdb.Props.C13", "Pdb.Proofs.GenBits"],
+        "lean": ["Pdb.Props.C13", "Pdb.Proofs.GenBits", "Pdb.Props.PhysRec", "Pdb.Props.PhysRecReplay", "Pdb.Props.PhysRecRc", "Pdb.Props.PhysRecGrow"],
         "harness": [{"cmd": "c13", "quick": 250, "thorough": 500, "max_search": 3000, "timeout": 3000}],
         "rule": ("c13: fixed cases first. 41 corpus byte patterns (replaylast). 15 scripted scenarios: F3b, F3c, F3d, and 6 index-growth s"
                  "cenarios (growth record pending, cut or accepted, DROP_TABLE record pending, accepted or bit-flipped, logs replayed over"
@@ -271,7 +273,7 @@ PROPS = {
                        "histories on the model (addresses, filled, free-list length, chain digests via hooks) and by an independent byte oracle."),
         "level_note": ("Trusted: Lean kernel; A-compress; the model restructures overwrite_chain into phases (tied by the c06 t correspondence); "
                        "db_version > 6; claimed entries (multitree) are C10; hooks of fixes/hook-c06.diff."),
-        "lean": ["Pdb.Props.C06", "Pdb.Props.C14Dump"],
+        "lean": ["Pdb.Props.C06", "Pdb.Props.C14Dump", "Pdb.Props.RefineBt", "Pdb.Proofs.OrderStorage", "Pdb.Proofs.OrderStorageRun", "Pdb.Proofs.OrderStoragePins", "Pdb.Props.RefineTotal"],
         "harness": [{"cmd": "c06", "quick": 100, "thorough": 300, "max_search": 3000}],
         "rule": ("one column per case (hash plain / hash rc / btree plain / btree rc; uniform or hashed keys; compression none/lz4/snappy; threshold "
                  "0/default/max); lengths 0, 1, boundary-1/boundary/boundary+1 of 3 (thorough 15) sampled tiers for the header variant in use, the "
@@ -328,8 +330,9 @@ PROPS = {
                        " multitree columns is not covered here; A-hash for root keys. C10T_rc_tables_refine models a reindex pass of the ref-cou"
                        "nt tables as one atomic step (whole front table copied and dropped); batches interleaved with count changes are covered "
                        "by per-entry lemmas and by the dump checker on real tables, not by the run theorem."),
-        "lean": ["Pdb.Props.C10", "Pdb.Props.C14DumpRc"],
-        "harness": [{"cmd": "c10", "quick": 400, "thorough": 6000, "max_search": 20000}],
+        "lean": ["Pdb.Props.C10", "Pdb.Props.C14DumpRc", "Pdb.Props.RefineMt", "Pdb.Props.C02xTx", "Pdb.Proofs.OrderStorage", "Pdb.Proofs.OrderStorageRun", "Pdb.Proofs.OrderStoragePins"],
+        "harness": [{"cmd": "c10", "quick": 400, "thorough": 6000, "max_search": 20000},
+                    {"cmd": "mtphys", "quick": 60, "thorough": 1500, "timeout": 3000}],
         "rule": ("histories from SplitMix64 states on a Db with 1..3 multitree columns (variants append_only / ref_counted roots / plain) "
                  "and, in 1/3 of the cases, a key-value column: TRANSACTIONS of 1..6 operations (40 % multi-operation; InsertTree of gener"
                  "ated trees as before - depth 0..5, fan-out 0..255 incl. exactly 255, 256..300 rejected, node data 0..40 KiB incl. multip"
@@ -364,7 +367,7 @@ PROPS = {
         "level_note": ("Trusted: Lean kernel; the directory abstraction (I/O errors, OS lock, non-UTF-8 names outside); what a successful "
                        "open+close does to the tables (log replay) is an abstract parameter of the frame theorems - that it preserves "
                        "content is checked by the oracle on crash images, and proved under C02/C03; harness generators."),
-        "lean": ["Pdb.Props.C17", "Pdb.Proofs.C17Findings", "Pdb.Proofs.Order"],
+        "lean": ["Pdb.Props.C17", "Pdb.Proofs.C17Findings", "Pdb.Proofs.Order", "Pdb.Props.C18Exec"],
         "harness": [{"cmd": "c17", "quick": 300, "thorough": 6000, "max_search": 20000}],
         "rule": ("case kind = seed % 20: codec (10%): ALL 384 option combinations, each at a random position of a 1..4 column list (plus a 0- and "
                  "a 260-column list), random salt, version None / 4..8 / unsupported, written by write_metadata* and read by "
@@ -422,7 +425,7 @@ PROPS = {
                        "the same 50 bits (C20_visible_bits); hooks Db::verif_iter_index / verif_hash_key / verif_index_tables / "
                        "verif_index_entries, verif::recover_key_prefix. Real index sizes reached by the runs: 16..18 bits; 16..49 are "
                        "covered by synthetic round trips through the real recover_key_prefix and by the theorem."),
-        "lean": ["Pdb.Props.C20"],
+        "lean": ["Pdb.Props.C20", "Pdb.Props.C20NoStale"],
         "harness": [{"cmd": "c20", "quick": 80, "thorough": 700, "max_search": 1500, "timeout": 3000}],
         "rule": ("one case = one real source database from one SplitMix64 state: 1..3 hash columns (plain / preimage / rc, uniform on/off, "
                  "none / lz4 / snappy, compression threshold 0 / 64 / default) + a btree column in 1/3 of the cases, 10..300 keys per column "
@@ -470,7 +473,7 @@ PROPS = {
                        "surviving log prefix is rejected whole (C13); stores are observed as page diffs at stepping-API boundaries and at every interposed sync / "
                        "truncate / unlink inside enact / open (single-threaded), not per store; pages of an enact call with several records are attributed to "
                        "every record of the call; a replayed record that was applied before is journalled with the stores of its first application."),
-        "lean": ["Pdb.Props.C12", "Pdb.Proofs.Order"],
+        "lean": ["Pdb.Props.C12", "Pdb.Proofs.Order", "Pdb.Props.PhysRec", "Pdb.Props.PhysRecReplay", "Pdb.Props.PhysRecRc", "Pdb.Props.PhysRecGrow"],
         "harness": [{"cmd": "c12", "quick": 400, "thorough": 8000, "max_search": 40000},
                     {"cmd": "c12x", "quick": 5, "thorough": 100, "max_search": 200}],
         "rule": ("histories from one SplitMix64 state: 1..3 columns (plain / preimage / rc, hash or btree, uniform or salted, lz4), 3..12 keys per "
@@ -513,9 +516,11 @@ PROPS = {
         "level_note": ("Partial by nature: the theorems are about the lock-granular LTS; mmap stores / relaxed atomics inside the "
                        "critical sections are not modelled; schedules of the real crate are sampled. Stated for plain columns "
                        "(rc / preimage columns weaken as in C07). Trusted: Lean kernel, hook fixes/hook-c05.diff, harness oracles."),
-        "lean": ["Pdb.Props.C05", "Pdb.Props.C05Slot", "Pdb.Proofs.C05Driver", "Pdb.Proofs.Order"],
+        "lean": ["Pdb.Props.C05", "Pdb.Props.C05Slot", "Pdb.Proofs.C05Driver", "Pdb.Proofs.Order", "Pdb.Props.C05SlotRefine", "Pdb.Props.C05SlotDriver", "Pdb.Props.T3", "Pdb.Proofs.T3", "Pdb.Proofs.T3Pipe"],
         "harness": [{"cmd": "c05", "quick": 12, "thorough": 36, "timeout": 3000},
-                    {"cmd": "c05bt", "quick": 4, "thorough": 24, "model": False, "timeout": 3000}],
+                    {"cmd": "c05bt", "quick": 4, "thorough": 24, "model": False, "timeout": 3000},
+                    {"cmd": "c05s", "quick": 12, "thorough": 40, "timeout": 900},
+                    {"cmd": "t3", "quick": 60, "thorough": 400, "model": True, "timeout": 3000}],
         "rule": ("cases from one SplitMix64 state, kind = seed % 6 (a run covers the kinds in turn): 0|1 threaded stress (4..8 keys bumped together per transaction, "
                  "value sizes from 16 B to 40 kB incl. multipart so entries change tier, filler thread growing one index chunk: 2..5 "
                  "index growths per case, 4..6 readers, seeded delays at the yield points), 2 deterministic F11 (reader parked between "
@@ -624,7 +629,7 @@ PROPS = {
                        "mn's record id) is an assumption of the model checked only through iterator answers; on ref-counted btree columns a queu"
                        "ed Dereference is not mirrored in the commit overlay (C04r_lag_witness): readers see it after process_commits, which is "
                        "C07's carve-out, not a C04 violation."),
-        "lean": ["Pdb.Props.C04", "Pdb.Props.C04b", "Pdb.Props.C04c", "Pdb.Props.C04r", "Pdb.Props.C04d", "Pdb.Props.C14Dump"],
+        "lean": ["Pdb.Props.C04", "Pdb.Props.C04b", "Pdb.Props.C04c", "Pdb.Props.C04r", "Pdb.Props.C04d", "Pdb.Props.C14Dump", "Pdb.Props.RefineBt"],
         "harness": [{"cmd": "c04", "quick": 150, "thorough": 800, "max_search": 3000, "timeout": 7200},
                     {"cmd": "c05bt", "quick": 3, "thorough": 12, "model": False, "timeout": 3000}],
         "rule": ("one SplitMix64 state per case: btree column (plain / lz4; one case in four ref_counted + preimage: Set / Dereference / "
@@ -677,8 +682,9 @@ PROPS = {
                        "(granularity: a step under one mutex whose effects are only visible under that mutex is atomic; "
                        "kill_logs and the stepping API are sequential functions); OS scheduler fairness and parking_lot "
                        "condvar semantics (A-os). Partial by nature."),
-        "lean": ["Pdb.Props.C15", "Pdb.Proofs.Throttle", "Pdb.Proofs.Order"],
-        "harness": [{"cmd": "c15", "quick": 40, "thorough": 600, "model": False, "timeout": 3000}],
+        "lean": ["Pdb.Props.C15", "Pdb.Proofs.Throttle", "Pdb.Proofs.Order", "Pdb.Props.T3", "Pdb.Proofs.T3", "Pdb.Proofs.T3Pipe"],
+        "harness": [{"cmd": "c15", "quick": 40, "thorough": 600, "model": False, "timeout": 3000},
+                    {"cmd": "t3", "quick": 40, "thorough": 300, "model": True, "timeout": 3000}],
         "rule": ("real Db with background workers in a child process under a watchdog (60 s of silence between progress "
                  "lines, observed < 0.6 s; an expiry counts only if it reproduces on an immediate re-run with the same "
                  "seed); scenarios from one SplitMix64 state: small (2-4 threads x 100-400 tiny / empty / 0-byte commits), "
@@ -708,8 +714,8 @@ PROPS = {
                        "decidable order obligation and instantiated with the programs regenerated from src/db.rs."),
         "level_note": ("Trusted: Lean kernel; tools/skeleton.py; flock(2) semantics as used by fs2 (A-os): one holder per lock "
                        "file, try_lock fails iff held, released by unlock / close / process death. Partial by nature."),
-        "lean": ["Pdb.Props.C18"],
-        "harness": [{"cmd": "c18", "quick": 150, "thorough": 3000, "model": False}],
+        "lean": ["Pdb.Props.C18", "Pdb.Props.C18Exec"],
+        "harness": [{"cmd": "c18", "quick": 150, "thorough": 3000}],
         "rule": ("scenarios from one SplitMix64 state: threads (2-5 in-process threads x 8-60 open/commit/drop rounds, live-handle "
                  "counter), mixed (plus child processes), procs / kill (a holder child process, concurrent losing opens from "
                  "children and in-process, directory names + content hashes except `lock` compared before / after, then drop "
@@ -719,7 +725,7 @@ PROPS = {
         "trusted": ["tools/skeleton.py (Pdb/Gen/Order.lean)"],
     },
     "C09": {
-        "lean": ["Pdb.Props.C09", "Pdb.Props.C09Total", "Pdb.Props.C09F24", "Pdb.Props.C09Replay", "Pdb.Proofs.GenBits", "Pdb.Props.Refine", "Pdb.Props.C09Stale"],
+        "lean": ["Pdb.Props.C09", "Pdb.Props.C09Total", "Pdb.Props.C09F24", "Pdb.Props.C09Replay", "Pdb.Proofs.GenBits", "Pdb.Props.Refine", "Pdb.Props.C09Stale", "Pdb.Proofs.OrderStorage", "Pdb.Proofs.OrderStorageRun", "Pdb.Proofs.OrderStoragePins", "Pdb.Props.C09NoStale"],
         "harness": [{"cmd": "c09", "quick": 48, "thorough": 600, "timeout": 3000}],
         "level_text": ("Lean theorems C09_index_inv_preserved / C09_lookup_latest / C09_no_panic / C09_collision_individual over all histories ("
                        "set, del, reindex batch, enacted drop, reopen/recovery, relaunched growth) of the index-layer model (current table + que"
@@ -775,10 +781,11 @@ PROPS = {
         "trusted": ["hook Db::verif_dump / verif_reindex_state (cfg pdb_verif)"],
     },
     "C14": {
-        "lean": ["Pdb.Props.C14", "Pdb.Props.C09Total", "Pdb.Props.C09F24", "Pdb.Props.C14Dump", "Pdb.Props.C14DumpRc"],
+        "lean": ["Pdb.Props.C14", "Pdb.Props.C09Total", "Pdb.Props.C09F24", "Pdb.Props.C14Dump", "Pdb.Props.C14DumpRc", "Pdb.Props.RefineMt", "Pdb.Props.C07Iter", "Pdb.Props.RefineBt", "Pdb.Props.C02xTx", "Pdb.Proofs.OrderStorage", "Pdb.Proofs.OrderStorageRun", "Pdb.Proofs.OrderStoragePins", "Pdb.Props.C09NoStale"],
         "harness": [{"cmd": "c09", "quick": 48, "thorough": 600, "timeout": 3000},
                     {"cmd": "c10", "quick": 100, "thorough": 1500},
-                    {"cmd": "c02x", "quick": 150, "thorough": 2000, "timeout": 7200}],
+                    {"cmd": "c02x", "quick": 150, "thorough": 2000, "timeout": 7200},
+                    {"cmd": "mtphys", "quick": 30, "thorough": 500, "timeout": 3000}],
         "level_text": ("Lean theorems: IndexInv / SlotInvAbs / NoLeak preserved over all histories (C14_index_inv_preserved, C14_no_leak), C14_n"
                        "o_misattribution, C14_remove_returns_slot, C14_fill_mark_moves_only_when_no_free_slot, C14_iter_values_exact on the abst"
                        "ract value tables of the index-layer model (C14_index_inv_preserved_total: the same from input hypotheses only, Props/C0"
